@@ -24,6 +24,7 @@ class World:
         self._ident: dict[int, int] = {}
         self._ident_keep: list = []
         self.counter = 0  # for unique explicit names
+        self.last_new = None  # (node, explicit name argument) of the last new_node op
 
     # ------------------------------------------------------------- registry
     def reg(self, obj):
